@@ -77,7 +77,7 @@ pub fn run(ctx: &Ctx) -> Outcome {
                         for k in KINDS {
                             // enc == reference
                             rep.case(|| {
-                                let mut out = if k == Kind::InPlace { m.to_vec() } else { dirty(l) };
+                                let mut out = if k.in_place() { m.to_vec() } else { dirty(l) };
                                 let r = rec::cts(cfg, d, Ctor::Inner, false, Dir::Enc, k, key, &iv, m, &mut out).expect("harness: ctor");
                                 ensure!(r.is_ok(), format!("enc_refused/{}/{}", d.name, shape(bs, l)), "{} encrypt({}) of {} bytes returned Err", d.ty, k.s(), l);
                                 ensure!(out.len() == l, format!("enc_len/{}", d.name), "length changed");
@@ -86,7 +86,7 @@ pub fn run(ctx: &Ctx) -> Outcome {
                             });
                             // dec(reference ciphertext) == m
                             rep.case(|| {
-                                let mut out = if k == Kind::InPlace { want_enc.clone() } else { dirty(l) };
+                                let mut out = if k.in_place() { want_enc.clone() } else { dirty(l) };
                                 let r = rec::cts(cfg, d, Ctor::Inner, false, Dir::Dec, k, key, &iv, &want_enc, &mut out).expect("harness: ctor");
                                 ensure!(r.is_ok(), format!("dec_refused/{}/{}", d.name, shape(bs, l)), "{} decrypt({}) of {} bytes returned Err", d.ty, k.s(), l);
                                 ensure!(out == m, format!("dec_mismatch/{}/{}", d.name, shape(bs, l)), "{} decrypt({}) of the reference ciphertext, L={} iv={} data={}: got {} want {}", d.ty, k.s(), l, ivn, dn, short(&out), short(m));
@@ -94,7 +94,7 @@ pub fn run(ctx: &Ctx) -> Outcome {
                             });
                             // dec(arbitrary bytes) == reference decryption
                             rep.case(|| {
-                                let mut out = if k == Kind::InPlace { m.to_vec() } else { dirty(l) };
+                                let mut out = if k.in_place() { m.to_vec() } else { dirty(l) };
                                 let r = rec::cts(cfg, d, Ctor::Inner, false, Dir::Dec, k, key, &iv, m, &mut out).expect("harness: ctor");
                                 ensure!(r.is_ok(), format!("dec_refused/{}/{}", d.name, shape(bs, l)), "{} decrypt({}) of {} bytes returned Err", d.ty, k.s(), l);
                                 ensure!(out == want_dec_arb, format!("dec_arbitrary_mismatch/{}/{}", d.name, shape(bs, l)), "{} decrypt({}) of arbitrary ciphertext, L={} iv={} data={}: got {} want {}", d.ty, k.s(), l, ivn, dn, short(&out), short(&want_dec_arb));
